@@ -56,7 +56,7 @@ def verus_cmd(path, extra):
     return cmd
 
 
-def run_verus(path, extra=(), timeout=1500, use_cache=True):
+def run_verus(path, extra=(), timeout=600, use_cache=True):
     """returns dict(ok, functions{name:{success,time_ms,rlimit}}, errors[...], compile_error, wall_s, cmd, cache_hit)"""
     text = open(path).read()
     key = hashlib.sha256((text + "\0" + " ".join(extra) + "\0" + verus_version()).encode()).hexdigest()
